@@ -371,9 +371,10 @@ func (t *vnTr) flush(d int, rh, rb [2]int) bool {
 	} else {
 		w.script = [][2]int{rb}
 	}
+	h0 := len(dir.hist)
 	n, err := dir.snd.Flush(w)
 	t.ops = append(t.ops, vnOp{"f", vnB(d), []any{rh[0], rh[1] != 0}, []any{rb[0], rb[1] != 0},
-		n, err != nil, w.calls})
+		n, err != nil, w.calls, len(dir.hist) - h0})
 	return err == nil
 }
 
